@@ -51,6 +51,11 @@ def hops (sc : Scenario) : Nat :=
 
 /-- `get_score_upper_bound`, in units of 1/64 -/
 def scoreUpperBound (sc : Scenario) : Int :=
+  (sc.sens.map (·.2)).foldl (· + ·) 0 + (sc.hosts.map fun h => max 0 h.dvalue).foldl (· + ·) 0
+    - 64 * (hops sc : Int)
+
+/-- the bound before the repair D12: discovery values of *all* hosts, whatever their sign -/
+def scoreUpperBoundBeforeD12 (sc : Scenario) : Int :=
   (sc.sens.map (·.2)).foldl (· + ·) 0 + (sc.hosts.map (·.dvalue)).foldl (· + ·) 0 - 64 * (hops sc : Int)
 
 /-! ### what the bound is supposed to count -/
